@@ -20,6 +20,13 @@ PROP = "C06"
 FOREIGN = {"sonar": "python:S99999", "semgrep": "python.lang.foreign.rule-not-ours", "defectdojo": "some.other.defectdojo.title"}
 
 
+PATH_TWINS = {
+    "deep/pkg/twin.py": ["pkg/twin.py", "twin.py", "eep/pkg/twin.py", "other/pkg/twin.py", "deep/pkg/twin.py.py"],
+    "up.py": ["nest/up.py", "pup.py", "sup/up.py"],
+}
+_TWIN_PATHS = set(PATH_TWINS) | {t for ts in PATH_TWINS.values() for t in ts}
+
+
 def sast_seeds():
     return [s for s in progspace.load_seeds() if s.tool and s.kind == "trigger" and s.batchable]
 
@@ -97,6 +104,16 @@ def plan(seed_id, n, wrap):
     blank = ms.blank_line_of(0)  # the blank separator line closing copy 0
     docs.append(_move_lines(tool, multisite.doc_for(ms, "neighbour.py", [0]), blank))
     meta["neighbour.py"] = {"S": [], "doc": None}
+    # path twins: identical files whose paths are a component-wise suffix / string suffix / prefix-extension of a
+    # reported file's path, or share only its base name - findings belong to the exact path they name and to no other
+    for reported, twins in PATH_TWINS.items():
+        files[reported] = data
+        d = multisite.doc_for(ms, reported, allc)
+        docs.append(d)
+        meta[reported] = {"S": allc, "doc": d}
+        for t in twins:
+            files[t] = data
+            meta[t] = {"S": [], "doc": None}
     if tool == "sonar":
         for st in ("RESOLVED", "CLOSED", "REVIEWED"):  # REVIEWED = the closed state of a security hotspot
             p = f"status_{st.lower()}.py"
@@ -167,7 +184,7 @@ def eval_case(case):
             out.append((f"{tag}|harness|copies-not-separable", f"{path}: marker statements were disturbed"))
             continue
         rewritten = [c for c in range(n) if by_copy[c]]
-        kind_of_file = "subset" if path.startswith("s_") else path.rsplit(".", 1)[0]
+        kind_of_file = "subset" if path.startswith("s_") else ("path-twin" if path in _TWIN_PATHS else path.rsplit(".", 1)[0])
         if rewritten != m["S"]:
             extra = [c for c in rewritten if c not in m["S"]]
             missing = [c for c in m["S"] if c not in rewritten]
@@ -266,7 +283,7 @@ def explore(tier, seed):
         "transitions": files + usable,
         "traces_validated_against_impl": files + usable,
         "exhaustive": True,
-        "samples": [{"seed": cs[0][0], "copies": cs[0][1], "column_offset": 4 * cs[0][2], "files": "one per subset of reported copies + decoys (foreign rule, foreign file, neighbour line, resolved/closed status), + an empty-result-file run"}],
+        "samples": [{"seed": cs[0][0], "copies": cs[0][1], "column_offset": 4 * cs[0][2], "files": "one per subset of reported copies + decoys (foreign rule, foreign file, neighbour line, resolved/closed status, unreported path twins of reported files), + an empty-result-file run"}],
         "programs": len(cs),
         "programs_usable": usable,
         "programs_unusable": unusable[:12],
